@@ -638,6 +638,19 @@ pub fn gen_c09(rng: &mut Rng) -> Value {
         wcfg: WriteCfg { by_hash_pct: 10, rich_opts: true, declare_size_pct: 0, algos: rng.chance(1, 3), ends: false },
     };
     let mut sc = gen_history(rng, &m);
+    // a clear is sometimes followed by another one (another handle, another process clearing the same cache)
+    if let Some(steps) = sc["steps"].as_array_mut() {
+        let mut i = 0;
+        while i < steps.len() {
+            if steps[i]["op"] == "clear" && rng.chance(1, 3) {
+                let mut again = json!({"k":"api","op":"clear"});
+                set_flav(&mut again, flav(rng));
+                steps.insert(i + 1, again);
+                i += 1;
+            }
+            i += 1;
+        }
+    }
     if rng.chance(1, 10) {
         // one of the cache's top-level directories is a symlink to a directory elsewhere (moved to another disk and
         // linked back): removals and clear must still remove what they name
